@@ -34,6 +34,7 @@ Index(t, idx, fix) == [xyz |-> Sel(t.xyz, idx), time |-> Sel(t.time, idx), cell 
                        tr |-> IF ~t.tr.has THEN NoTr ELSE IF fix THEN [has |-> TRUE, v |-> Sel(t.tr.v, idx)] ELSE t.tr]
 AtomSel(t, cs) == [i \in 1..NRows(t) |-> Sel(t.xyz[i], cs)]
 Centre(row) == [j \in 1..Len(row) |-> [f |-> row[j].f, a |-> row[j].a, v |-> <<"c", row>>]]
+CentreMW(row) == [j \in 1..Len(row) |-> [f |-> row[j].f, a |-> row[j].a, v |-> <<"cm", row>>]]
 Superposed(row, ref, cs) == [j \in 1..Len(row) |-> [f |-> row[j].f, a |-> row[j].a, v |-> <<"s", row, ref, cs>>]]
 Log(rec) == hist' = Append(hist, rec)
 Put(dst, val) == o' = [o EXCEPT ![dst] = val]
@@ -78,6 +79,11 @@ OpCentre(x) == /\ Live(x) /\ ~Aliased(x)
     /\ LET new == [i \in 1..NRows(o[x]) |-> Centre(o[x].xyz[i])] IN
          o' = [o EXCEPT ![x].xyz = new, ![x].tr = [has |-> TRUE, v |-> new]]
     /\ UNCHANGED sh /\ Log([op |-> "center", x |-> x, y |-> 0, dst |-> x, idx |-> <<>>, kind |-> ""])
+\* center_coordinates(mass_weighted=True): the centre of MASS goes to the origin; the frames are then not geometrically centred,
+\* so no cache may survive
+OpCentreMW(x) == /\ Live(x) /\ ~Aliased(x)
+    /\ o' = [o EXCEPT ![x].xyz = [i \in 1..NRows(o[x]) |-> CentreMW(o[x].xyz[i])], ![x].tr = NoTr]
+    /\ UNCHANGED sh /\ Log([op |-> "center_mw", x |-> x, y |-> 0, dst |-> x, idx |-> <<>>, kind |-> ""])
 \* x.superpose(ref, frame, atom_indices=cols): every frame of x is moved rigidly; the cache no longer applies
 OpSuperpose(x, ref, fr, cs) == /\ Live(x) /\ Live(ref) /\ ~Aliased(x) /\ fr \in 1..NRows(o[ref])
     /\ NCols(o[x]) = NCols(o[ref])
@@ -103,7 +109,7 @@ Next == \/ \E src \in Obj, dst \in Obj : Live(src) /\
         \/ \E x \in Obj, y \in Obj, dst \in Obj : \E how \in {"join", "md_join"} : OpJoin(x, y, dst, how)
         \/ \E x \in Obj, y \in Obj, dst \in Obj : OpStack(x, y, dst)
         \/ \E src \in Obj : Live(src) /\ \E cs \in ColSets(NCols(o[src])) : Len(cs) < NCols(o[src]) /\ OpAtomSliceInplace(src, cs)
-        \/ \E x \in Obj : OpCentre(x)
+        \/ \E x \in Obj : OpCentre(x) \/ OpCentreMW(x)
         \/ \E x \in Obj, ref \in Obj : Live(x) /\ Live(ref) /\ \E fr \in {1, NRows(o[ref])} :
                \E cs \in {[j \in 1..NCols(o[x]) |-> j], <<1>>} : OpSuperpose(x, ref, fr, cs)
         \/ \E x \in Obj : OpAssignXyz(x) \/ OpAssignTime(x) \/ \E none \in BOOLEAN : OpAssignCell(x, none)
